@@ -21,7 +21,7 @@ func runStoreClearTwin(c *Ctx) {
 			Depth: c.pick(5, 6), Twin: "clear"}, c.pick(3, 6), fmt.Sprintf("store-level deep narrow tree add/merge/clear %s%d x %s%d", p.a.Kind, p.a.N, p.b.Kind, p.b.N))
 		c.runStoreGen(&StoreGen{Kinds: []ModelKind{p.a, p.b, p.a}, Keys: []int{0, 1, 2, 3, 4}, Q: 4, Weights: []int{0, 1, 2, 4, 8, 12},
 			Factors: [][2]int{{1, 2}, {2, 1}}, Repeats: []int{33, 70}, Ops: []string{"Add", "AddWithCount", "AddRepeat", "Merge", "CopyTo", "Clear", "Reweight", "EncDec", "Proto"},
-			Depth: c.pick(16, 30), Simulate: true, Num: c.pick(1000, 30000), Twin: "clear"}, c.pick(6, 12), fmt.Sprintf("store-level simulated clear/reuse cycles %s%d x %s%d", p.a.Kind, p.a.N, p.b.Kind, p.b.N))
+			Depth: c.pick(16, 30), Simulate: true, Num: c.pick(1000, 15000), Twin: "clear"}, c.pick(6, 12), fmt.Sprintf("store-level simulated clear/reuse cycles %s%d x %s%d", p.a.Kind, p.a.N, p.b.Kind, p.b.N))
 	}
 }
 
@@ -32,7 +32,7 @@ func runStoreReweight(c *Ctx) {
 	for _, p := range pairs {
 		c.runStoreGen(&StoreGen{Kinds: []ModelKind{p.a, p.b}, Keys: []int{0, 1, 2, 3, 4}, Q: 4, Weights: []int{1, 2, 4, 8, 12},
 			Factors: [][2]int{{1, 4}, {1, 2}, {2, 1}, {3, 1}}, Repeats: []int{33, 70}, Ops: []string{"Add", "AddWithCount", "AddRepeat", "Merge", "Clear", "Reweight", "Read"},
-			Depth: c.pick(14, 24), Simulate: true, Num: c.pick(1500, 40000), Twin: "reweight"}, c.pick(6, 12), fmt.Sprintf("store-level simulated histories with reweight %s%d x %s%d", p.a.Kind, p.a.N, p.b.Kind, p.b.N))
+			Depth: c.pick(14, 24), Simulate: true, Num: c.pick(1500, 20000), Twin: "reweight"}, c.pick(6, 12), fmt.Sprintf("store-level simulated histories with reweight %s%d x %s%d", p.a.Kind, p.a.N, p.b.Kind, p.b.N))
 	}
 }
 
